@@ -276,7 +276,7 @@ func TestC07(t *testing.T) {
 	run.Assume("injected create faults are planted files under the store root (the process runs as root, so permission faults are unavailable)")
 
 	base := ev.TempDir(t, "c07-")
-	n := run.N(2400, 150000)
+	n := run.N(1800, 40000)
 	workers := 12
 	replay := run.ReplayCase()
 
